@@ -2,7 +2,7 @@
    accepted by the acceptor of Model/CoStream.v, for any adapter configuration (the acceptor's cfg: map, enumerate before/after map, take n, limit l). *)
 From Coq Require Import List Arith Bool.
 Import ListNotations.
-Require Import CoStream CoFacts CoTake.
+Require Import CoStream CoFacts CoTake CoOnce.
 
 (* enumerate: an index seen by a closure is its item's position in the source; source items are numbered in the order they are taken *)
 Theorem C15_enumerate_is_source_index c s stage j i s' : step c s (ECall stage j (Some i)) = Some s' -> has_enum c = true /\ i = j.
@@ -16,6 +16,9 @@ Proof. exact (C15_collect c s items s'). Qed.
 (* every closure (map or terminal) is invoked at most once per item *)
 Theorem C15_closures_once c es s k : run c (init c) es k = (s, None) -> NoDup (calls s).
 Proof. exact (C13_once c es s k). Qed.
+Theorem C15_closures_at_least_once c es s k r s' : run c (init c) es k = (s, None) -> step c s (EResult r) = Some s' -> residual s = None ->
+  forall j, j < taken s -> (has_term c = true -> In (1, j) (calls s)) /\ (has_map c = true -> In (0, j) (calls s)).
+Proof. exact (C13_at_least_once c es s k r s'). Qed.
 (* take(n): never more than n items are taken from the source; a result is returned only once the source ended, n items were taken or an error
    decided the outcome; take(0) accepts no source item at all (behaviour after the fix: commit) *)
 Theorem C15_take_at_most c n es s k : c_take c = Some n -> run c (init c) es k = (s, None) -> taken s <= n.
@@ -26,7 +29,7 @@ Proof. exact (fun Ht => C15_take_exact c n Ht es s k r s'). Qed.
 Theorem C15_take_zero_takes_nothing c es s k j : c_take c = Some 0 -> run c (init c) es k = (s, None) -> step c s (ESrc (Some j)) = None.
 Proof. exact (C15_take_zero c es s k j). Qed.
 Print Assumptions C15_enumerate_is_source_index. Print Assumptions C15_source_items_numbered. Print Assumptions C15_collect_all.
-Print Assumptions C15_closures_once. Print Assumptions C15_take_at_most. Print Assumptions C15_take_exactly. Print Assumptions C15_take_zero_takes_nothing.
+Print Assumptions C15_closures_once. Print Assumptions C15_closures_at_least_once. Print Assumptions C15_take_at_most. Print Assumptions C15_take_exactly. Print Assumptions C15_take_zero_takes_nothing.
 
 Example C15_witness :
   let c := {| has_map := true; has_enum := true; enum_first := true; c_take := Some 1; c_lim := None; c_term := TCollect |} in
